@@ -8,6 +8,8 @@ import Driver.Jwt
 import Driver.Mldsa
 import Driver.Sig
 import Driver.Hybrid
+import Driver.Derive
+import Driver.Proto
 /-!
   `tvdrv`: one line in, one line out. The first token selects the model.
   Unknown or malformed lines answer `bad-op` (never a default).
@@ -57,6 +59,14 @@ def dispatch (st : DState) (line : String) : DState × String :=
     | none => (st, "bad-op")
   | "H" :: rest =>
     match Driver.Hy.handle rest with
+    | some out => (st, out)
+    | none => (st, "bad-op")
+  | "V" :: rest =>
+    match Driver.Dv.handle rest with
+    | some out => (st, out)
+    | none => (st, "bad-op")
+  | "P" :: rest =>
+    match Driver.Pr.handle rest with
     | some out => (st, out)
     | none => (st, "bad-op")
   | "K" :: rest =>
